@@ -12,7 +12,6 @@ Definition adm_any (ws : bool) (f : list line) (b : list pline) (lo levels : nat
   existsb (fun fz => existsb (fun pos => admissibleb ws f b lo pos fz) (seq lo (length f - lo))) (seq 0 levels).
 
 Definition insertion_ok (f : list line) (h : hunk) (off : Z) (lo : nat) : bool :=
-  negb (Z.eqb (rstart (oldr h)) 0 && negb (is_nil f)) &&
   Z.leb (Z.of_nat lo) (stated_pos h off) && Z.leb (stated_pos h off) (Z.of_nat (length f)).
 
 Definition spec_C02_locate (ws : bool) (f : list line) (h : hunk) (off F : Z) (lo : nat) (o : obs_loc) : bool :=
@@ -53,28 +52,32 @@ Inductive overdict := OApplied (L : Z) (fz : nat) (Oc : Z) | ORejected.
 
 Record walk_result := mkWR { w_c02 : bool; w_c03 : bool; w_offsets : bool; w_verdicts : list verdict }.
 
-Fixpoint spec_walk (ws : bool) (F : Z) (f : list line) (hs : list hunk) (ovs : list overdict)
+Fixpoint spec_walk (creates : bool) (ws : bool) (F : Z) (f : list line) (hs : list hunk) (ovs : list overdict)
          (cursor : nat) (offerr o2n : Z) : option walk_result :=
   match hs, ovs with
   | [], [] => Some (mkWR true true true [])
   | h :: hs', ov :: ovs' =>
       match ov with
       | ORejected =>
-          match spec_walk ws F f hs' ovs' cursor offerr o2n with
+          match spec_walk creates ws F f hs' ovs' cursor offerr o2n with
           | None => None
-          | Some r => Some (mkWR (w_c02 r && spec_C02_locate ws f h offerr F cursor None)
-                                 (w_c03 r && spec_C03_locate ws f h offerr F cursor None)
-                                 (w_offsets r) (VRejected :: w_verdicts r))
+          | Some r =>
+              (* a patch which creates a file never fits a file with content: rejection is the expected verdict *)
+              let forced := creates && negb (is_nil f) && Z.eqb (rstart (oldr h)) 0 && Z.eqb (rcount (oldr h)) 0 in
+              Some (mkWR (w_c02 r && spec_C02_locate ws f h offerr F cursor None)
+                         (w_c03 r && (forced || spec_C03_locate ws f h offerr F cursor None))
+                         (w_offsets r) (VRejected :: w_verdicts r))
           end
       | OApplied L fz Oc =>
           let posz := (L - 1 - o2n)%Z in
           if Z.ltb posz 0 then None
+          else if creates && negb (is_nil f) && Z.eqb (rstart (oldr h)) 0 && Z.eqb (rcount (oldr h)) 0 then None
           else
             let pos := Z.to_nat posz in
             let off := ssub posz (stated_pos h offerr) in
             let obs := Some (pos, fz, off) in
             let offerr' := sadd offerr off in
-            match spec_walk ws F f hs' ovs' (pos + length (old_side (body h))) offerr'
+            match spec_walk creates ws F f hs' ovs' (pos + length (old_side (body h))) offerr'
                             (o2n + (rcount (newr h) - rcount (oldr h)))%Z with
             | None => None
             | Some r => Some (mkWR (w_c02 r && spec_C02_locate ws f h offerr F cursor obs)
@@ -88,9 +91,9 @@ Fixpoint spec_walk (ws : bool) (F : Z) (f : list line) (hs : list hunk) (ovs : l
 
 Record apply_judgement := mkAJ { j_c02 : bool; j_c03 : bool; j_c04 : bool }.
 
-Definition spec_apply (ws : bool) (F : Z) (mode : nlmode) (f : list line) (hs : list hunk) (ovs : list overdict)
+Definition spec_apply (creates : bool) (ws : bool) (F : Z) (mode : nlmode) (f : list line) (hs : list hunk) (ovs : list overdict)
            (out_bytes : list N) (failed : nat) (rej_bytes : list N) : apply_judgement :=
-  match spec_walk ws F f hs ovs 0 0 0 with
+  match spec_walk creates ws F f hs ovs 0 0 0 with
   | None => mkAJ false false false
   | Some r =>
       let same := match replay f 0 hs (w_verdicts r) with
